@@ -561,8 +561,74 @@ def optimizer_runs():
     return out
 
 
+# ------------------------------------------------------------------ exact integers above 2**53; components that are falsy callables
+
+class Recorder:
+    """a callable component object whose truth value is False while it has recorded nothing (len() == 0)"""
+
+    def __init__(self, scale):
+        self.scale, self.log = scale, []
+        self.__name__ = 'recorder'          # WeightedFunction._build logs the components' __name__
+
+    def __len__(self):
+        return len(self.log)
+
+    def __call__(self, x):
+        self.log.append(1)
+        return self.scale * float(np.sum(x))
+
+
+def extras(only=None):
+    out = []
+    x = np.array([[1.0], [2.0]])
+    big = [([10 ** 15, 1], [7, 3], 'np.int64'), ([2 ** 40, -(2 ** 40), 1], [2 ** 21 + 1, 2 ** 21, 5], 'np.int64'), ([10 ** 15, 1], [7, 3], 'int'),
+           ([3, 2 ** 60], [1, 1], 'int'), ([1, 10 ** 16], [9, 11], 'np.int64')]
+    for k, (ws, vals, kind) in enumerate(big):
+        name = 'bigint-%d' % k
+        if only and only != name:
+            continue
+        def const(v):
+            return lambda x: (np.int64(v) if kind == 'np.int64' else int(v))
+        comps = [const(v) for v in vals]
+        want = sum(w * v for w, v in zip(ws, vals))                                   # exact (Python integers)
+        rec = {'name': name, 'okey': 'bigint', 'input': {'weights': ws, 'component values': vals, 'component kind': kind}, 'oracle': None}
+        try:
+            got = WeightedFunction(functions=comps, weights=list(ws)).pointer(x)
+            if int(got) != want or isinstance(got, (float, np.floating)):
+                rec['oracle'] = ('integer components %s (%s) with integer weights %s: value %r (%s), the exact sum of weight times component value is %d'
+                                 % (vals, kind, ws, got, type(got).__name__, want))
+        except Exception as ex:  # noqa: BLE001
+            rec['oracle'] = 'integer components %s with weights %s raised %s: %s' % (vals, ws, type(ex).__name__, ex)
+        out.append(rec)
+    for k, scales in enumerate([[2.0], [1.5, -0.5], [0.0, 3.0, 1.0]]):
+        name = 'falsy-callable-%d' % k
+        if only and only != name:
+            continue
+        ws = [float(i + 2) for i in range(len(scales))]
+        recs = [Recorder(sc) for sc in scales]
+        want = 0
+        for w, sc in zip(ws, scales):
+            want += w * (sc * float(np.sum(x)))
+        rec = {'name': name, 'okey': 'falsy-callable', 'input': {'weights': ws, 'components': 'callable objects with __len__() == 0 when handed over, scales %s' % scales},
+               'oracle': None}
+        try:
+            wf = WeightedFunction(functions=recs, weights=ws)
+            got = wf.pointer(x)
+            calls = [len(r.log) for r in recs]
+            if got != want or calls != [1] * len(recs):
+                rec['oracle'] = ('components that are callable objects with a false truth value: value %r, expected %r; calls per component %s (each must '
+                                 'be evaluated exactly once)' % (got, want, calls))
+        except Exception as ex:  # noqa: BLE001
+            rec['oracle'] = 'callable objects with a false truth value as components: raised %s: %s' % (type(ex).__name__, ex)
+        out.append(rec)
+    return out
+
+
 def main():
     p = hlib.payload()
+    if p and 'extra' in p:
+        hlib.emit({'extras': extras(only=p['extra'])})
+        return
     if p and 'cases' in p:
         res = {'cases': [run_case(c) for c in p['cases']], 'seqs': [run_seq(c) for c in p.get('seqs', [])],
                'histories': [run_history(h) for h in p.get('histories', [])],
@@ -579,7 +645,7 @@ def main():
     hist_obs = [run_history(h) for h in hs]
     hlib.emit({'history_inputs': hs, 'histories': hist_obs, 'sweep_inputs': sweeps, 'sweeps': [run_sweep(c) for c in sweeps],
                'cases': [run_case(c) for c in gen_cases()], 'seq_inputs': seqs, 'seqs': [run_seq(c) for c in seqs],
-               'interface': interface_check(), 'optimizers': optimizer_runs()})
+               'interface': interface_check(), 'optimizers': optimizer_runs(), 'extras': extras()})
 
 
 if __name__ == '__main__':
